@@ -150,7 +150,7 @@ def task_encode_level(I, level, micro):
                     if level is not None:
                         defined = s_or(*[ver == v for v in iso.ALL_VERSIONS if level in iso.levels_of(v)])
                         I.oblige('C05.encode.level_defined_for_version', defined)
-                I.replay_spec = None
+                I.replay_spec = dict(fn='replay_encode_level', level=spelled, micro=micro, version=vname, boost=boost)
                 I.explore(thunk, post)
 
 
